@@ -13,13 +13,14 @@ RULE = ('a monitor on SingleLayerOperator.bilform records every call made while 
         '|X||Y|*K(r_max) (mpmath, time-integrated kernel decreasing in r) exceeds 1e-250. Matrix convention: mat[i,j] is bit-equal '
         'to bilform(trial_j, test_i) on rectangular lists with len(test) != len(trial); with elements sorted by slab every block '
         'above the diagonal is exactly zero and some mat[i,j] != 0 == mat[j,i] exists. distinct = distinct (curve, mesh, event)')
+RULE += ' ' + 'The time sweep includes eight log-uniform times t0 + h_t*2^-u, u in [1,26], shortly after the element starts (far points whose exact value is tiny but far above the underflow range).'
 ASSUMPTIONS = [
     'lower bound: the doubly time-integrated kernel is decreasing in the squared distance r; r_max is attained at segment end '
     'points on polygons and bounded by the chord of the angular range on the circle',
     'pointwise evaluations: non-negativity is judged against 1e-15 times the largest value seen for that element in the sweep',
 ]
 REQUIRED = {t: ['event:bilform-acausal', 'event:bilform-causal', 'event:bilform-time-touch', 'path:inline', 'path:serial', 'path:pool',
-                'matrix:rectangular', 'matrix:asymmetric-pair-seen', 'call:test-list-only', 'eval:evaluate', 'eval:evaluate_exact', 'eval:potential',
+                'matrix:rectangular', 'matrix:asymmetric-pair-seen', 'call:test-list-only', 'eval:evaluate', 'eval:evaluate_exact', 'eval:potential', 'eval:t-shortly-after-start',
                 'eval:t-at-start', 'eval:t-at-end', 'eval:t-before-start', 'switch:exact', 'switch:quad', 'event:tiny-positive',
                 'curve:UnitSquare', 'curve:PiSquare', 'curve:LShape', 'curve:Circle', 'curve:UnitInterval', 'source:repo-test-suite', 'source:driver']
             for t in ('quick', 'thorough')}
@@ -295,6 +296,9 @@ def sweep(acc, SL, mesh, geo, elems, rng, n_eval, curve, wit0, exact):
         times = [(t0, 't-at-start'), (t1, 't-at-end'), (float(np.nextafter(t0, -1)), 't-before-start'), (t0 - rng.random() * 0.3 - 1e-9, 't-before-start'),
                  (float(np.nextafter(t0, 9)), 't-after-start'), ((t0 + t1) / 2, 't-inside'), (t1 + rng.random() * (T - t1 + 0.1), 't-after-end'),
                  (float(np.nextafter(t1, 9)), 't-after-end')]
+        # shortly after the start of the element, on a logarithmic scale: far points whose exact value is tiny but far above the
+        # underflow range (exp(-r^2/(4 tau)) with the Euclidean r, which may be much shorter than the distance along the curve)
+        times += [(t0 + e.h_t * 2.0**-rng.uniform(1, 26), 't-shortly-after-start') for _ in range(8)]
         pts = [x0, x1, (x0 + x1) / 2, min(L, x1 + 0.01 * e.h_x), max(0.0, x0 - 0.5 * e.h_x), rng.uniform(0, L), 0.0, L]
         if it < len(witness):
             times.append((witness[it][1], 't-inside'))
